@@ -26,6 +26,12 @@ def keys (l : List (Int × α)) : List Int := l.map Prod.fst
 @[simp] theorem keys_nil : keys ([] : List (Int × α)) = [] := rfl
 @[simp] theorem keys_cons (kw : Int × α) (t : List (Int × α)) : keys (kw :: t) = kw.1 :: keys t := rfl
 
+theorem zip_map_fst_snd {β γ : Type} (l : List (β × γ)) :
+    (l.map fun x => x.1).zip (l.map fun x => x.2) = l := by
+  induction l with
+  | nil => rfl
+  | cons x t ih => simp [ih]
+
 variable [Add α]
 
 theorem mem_keys_bump (af : α) (c : Int) (l : List (Int × α)) (k : Int) :
